@@ -87,6 +87,10 @@ def _map_term(t: Any) -> Any:
             if op not in _LOGIC:
                 raise LoweringError(f"unknown tket.bool op {name}")
             return hm.Apply(f"logic.{_LOGIC[op]}@{_v('logic')}", [])
+        if name in ("arithmetic.int.idivmod_u", "arithmetic.int.idivmod_s") and len(t.args) == 2:
+            # hugr 0.14 declared idivmod_* over two width parameters; 0.18 over one. /repo passes
+            # (N, N); keep the first (third-party API drift, not a /repo property).
+            return hm.Apply(t.symbol, [_map_term(t.args[0])])
         return hm.Apply(t.symbol, [_map_term(a) for a in t.args])
     if isinstance(t, hm.List):
         return hm.List([_map_part(p) for p in t.parts])
